@@ -154,7 +154,7 @@ class EYAMLProcessor(Processor):
         if self.privatekey:
             cmd.append(f"--pkcs7-private-key={self.privatekey}")
 
-        cleanval: str = str(value).replace("\n", "").replace(" ", "").rstrip()
+        cleanval: str = "".join(str(value).split())
         bval: bytes = cleanval.encode("ascii")
         self.logger.debug(
             f"About to execute {' '.join(cmd)} against:\n{cleanval}",
@@ -392,4 +392,6 @@ class EYAMLProcessor(Processor):
         """
         if not isinstance(value, str):
             return False
-        return value.replace("\n", "").replace(" ", "").startswith("ENC[")
+        # Ignore all white-space and line breaks (tabs and carriage returns
+        # as well as blanks and line feeds)
+        return "".join(value.split()).startswith("ENC[")
